@@ -276,6 +276,10 @@ func genNodeOp(rt *rapid.T, nm *hx.NodeMachine, cfg genCfg) hx.NOp {
 		if nm.Ptr != m.Tip {
 			return hx.NOp{Op: "sync"}
 		}
+		if nm.FS.Active("C13-timer-tx-sees-pending-task") && nm.PendingTimerFor(m.Blocks[m.Tip].Height+1) {
+			nm.Stat["excluded:C13-timer-tx-sees-pending-task"]++
+			return hx.NOp{Op: "sync"}
+		}
 		return hx.NOp{Op: "mine", Label: label, Proposer: rapid.IntRange(0, 2).Draw(rt, "proposer")}
 	case 2: // peer block on any valid stored block (bias: leaves of any branch, tip, state pointer)
 		vs := validStored()
